@@ -59,9 +59,40 @@ def derive_weight(fgg, d):
     return w, set(asst.keys()) == set(graph.nodes())
 
 
+def tables_stream(ctx, case, shape, fgg, info, a, enc, posneg, treqs, tmeta):
+    """the back-pointer tables the implementation built (hook `viterbi._verif_tables`, FGGS_VERIF=1), handed to the model of the
+    reconstruction phase: `Vt.reconstruct` must return exactly the derivation `viterbi` returned, `Vt.reconstructChecked` must accept
+    it (the pointers are locally optimal at every visited rule instance), and `maximum` must be a fixed point of the equations"""
+    from fggs.viterbi import viterbi as _v
+    tb = getattr(_v, '_verif_tables', None)
+    if tb is None:
+        return
+    mx, lp, rp = tb
+    XL = info['XL']
+    def enc_r(r):
+        if r is None:
+            return 'none'
+        t = r.to_dense() if hasattr(r, 'to_dense') else r
+        n = t.shape[-1]
+        ncell = 1
+        for q in t.shape[:-1]:
+            ncell *= q
+        return 'some ' + enc_list(t.reshape(ncell, n).tolist(), lambda row: enc_list([int(v) for v in row]))
+    try:
+        lhs = enc_list(XL, lambda X: enc_list(lp[X].reshape(-1).tolist()) if X in lp else '0')
+        rhs = enc_list(XL, lambda X: enc_list(rp[X], enc_r) if X in rp else '0')
+        xs = enc_list(XL, lambda X: ('some ' + enc_list(mx[X].to_dense().reshape(-1).tolist(), enc_ext)) if X in mx else 'none')
+    except Exception as e:  # noqa
+        ctx.count('tables.unencodable')
+        return
+    treqs.append(f'C04.reconstruct {gen.enc_shape(shape)} {xs} {lhs} {rhs} {enc_list(a)}')
+    tmeta.append((case, enc, posneg))
+
+
 def run(ctx):
     n = 160 if ctx.quick else 1500
     reqs, meta = [], []
+    treqs, tmeta = [], []
     for k in range(n):
         shape = gen_shape(ctx.rng)
         if k == 0:
@@ -123,6 +154,8 @@ def run(ctx):
             ninst = count_instances(d)
             ctx.case(case, (repr(shape), a) if ninst >= 2 else None, sample_every=40)
             enc = enc_deriv(d, shape, info)
+            if enc is not None:
+                tables_stream(ctx, case, shape, fgg, info, a, enc, posneg, treqs, tmeta)
             if enc is None:
                 ctx.fail('viterbi: a rule instance does not have exactly one child per nonterminal edge', case, None, None, tags=['children'])
                 continue
@@ -133,6 +166,24 @@ def run(ctx):
                 w, total = repr(e), False
             root_rep = len(set(d.rule.rhs.ext)) < len(d.rule.rhs.ext)
             meta.append((case, b, w, total, root_rep, posneg))
+    for (case, enc, posneg), rep in zip(tmeta, ctx.driver.ask_many(treqs)):
+        if isinstance(rep, Exception): raise rep
+        toks = rep.split()
+        fixed, chk, md = toks[-1], toks[-2], ' '.join(toks[:-2])
+        if md.startswith('some '):
+            md = md[5:]
+        ctx.evaluations += 1
+        ctx.count('tables.' + ('checked' if chk == 'T' else 'unchecked'))
+        if md != enc:
+            ctx.disagree('Vt.reconstruct (model of the reconstruction phase, run on the implementation\'s tables) vs the derivation viterbi returned',
+                         case, enc, md)
+        elif chk != 'T':
+            ctx.fail('viterbi: the back-pointers followed by the reconstruction are not locally optimal (the product of the rule\'s edge weights at '
+                     'the pointed-to assignment is not the tabulated maximum)', case, enc, None,
+                     tags=['pointers-not-optimal'] + (['posinf-meets-neginf'] if posneg else []))
+        if fixed != 'T':
+            ctx.fail('viterbi: the tabulated maxima are not a fixed point of the max-plus equations', case, None, None,
+                     tags=['maximum-not-fixed'] + (['posinf-meets-neginf'] if posneg else []))
     for (case, b, w, total, root_rep, posneg), rep in zip(meta, ctx.driver.ask_many(reqs)):
         if isinstance(rep, Exception): raise rep
         if rep == 'none':
